@@ -52,4 +52,8 @@ def windowAccesses : List (String × Bool × Bool) := [
   ("_wait_for_send_window", false, true)
 ]
 
+/-- calls `add_int(self.chanid)` / `add_int(self.remote_chanid)` in class Channel -/
+def ownIdInMessages : Nat := 0
+def remoteIdInMessages : Nat := 17
+
 end PV.Generated.ChanLock
